@@ -148,6 +148,41 @@ theorem parse_swc_prologue_eq (nm : SWCNames7) (extras : List String) :
   simp [parse_swc_prologue, parse_swc_prologue.body, Py.seq, Py.bindS, Py.bind, prologue_for1, prologue_for2, swc_names_cols_eq,
     Py.finish, Py.len, reSwcText, reCols7]
 
+/-! ## `Tree.from_swc`, the `extra_cols` of `Tree.from_eswc` -/
+
+/-- the names of `eswc_cols` (core/swc.py), in order -/
+def eswcNames : List String := ["level", "mode", "timestamp", "teraflyindex", "feature_value"]
+
+/-- **`Tree.from_eswc` hands `from_swc` the caller's extra columns (none for `None`) FOLLOWED by the five eswc columns, in a NEW list** -/
+theorem from_eswc_extras_eq (xs : Option (List String)) : from_eswc_extras xs = some (normExtras xs ++ eswcNames, ()) := by
+  cases xs <;>
+    simp [from_eswc_extras, from_eswc_extras.body, from_eswc_extras.for1, Py.seq, Py.bind, Py.bindS, Py.forEach, Py.optList, Py.finish,
+      normExtras, eswcNames]
+
+/-- the exception `Tree.from_swc` raises instead of whatever `read_swc` raised -/
+def wrapExc : Py.Exc := ⟨"ValueError", "fails to read swc: {swc_file}", []⟩
+
+/-- `source`: the absolute path of a `str` file name, `""` for a stream -/
+def sourceOf (abspath : String → String) : Src → String
+  | .path n => abspath n
+  | _ => ""
+
+/-- **`Tree.from_swc`**: every `Exception` of `read_swc` becomes `ValueError("fails to read swc: …")` (the table is never built from a failed
+read); otherwise `from_data_frame` receives exactly the table and the comments `read_swc` returned and `source`, and its own exceptions
+propagate unwrapped -/
+theorem tree_from_swc_eq {KW DF CM T : Type} [Inhabited KW] [Inhabited DF] [Inhabited CM] [Inhabited T]
+    (R : Src → KW → Except Py.Exc (DF × CM)) (Fd : DF → String → CM → Except Py.Exc T) (abspath : String → String) (src : Src) (kw : KW) :
+    tree_from_swc R Fd abspath src kw =
+      some (match R src kw with
+        | .error e => if e.isA "Exception" then .error wrapExc else .error e
+        | .ok r => Fd r.1 (sourceOf abspath src) r.2) := by
+  simp only [tree_from_swc, tree_from_swc.body, tree_from_swc.try1_body, tree_from_swc.try1_handler, Py.seq, Py.tryExcept, Py.raise, Py.bind]
+  cases hR : R src kw with
+  | error e => by_cases hi : e.isA "Exception" <;> simp [hi, Py.finishX, wrapExc]
+  | ok r =>
+    cases src <;> simp [Py.Src.isStr, Py.Src.strName, sourceOf, Py.finishX] <;>
+      (cases Fd r.1 _ r.2 <;> simp [Py.finishX])
+
 /-! ## `dict(zip(keys, vals))` with distinct keys: the value under the `j`-th key is the `j`-th value -/
 
 theorem get?_foldl_set_not_mem {κ ν : Type} [DecidableEq κ] : ∀ (zs : List (κ × ν)) (d : Dict κ ν) (k : κ), k ∉ zs.map (·.1) →
